@@ -27,6 +27,10 @@ from lib import core
 from lib.core import f2bits, bits2f
 
 DRIVER = "drv_phs"
+# C15_EXPECT=repaired: validate a tree that carries the proposed repairs notes/C15-fix-F36.diff + C15-fix-F130.diff: the oracles then
+# expect the repaired semantics (PHS list restored on every update, heuristic / measure over all pairs, false for a bound no PHS can
+# improve on) and the lines whose as-coded model necessarily differs are not lock-stepped.  Never set in a normal run.
+REPAIRED = os.environ.get("C15_EXPECT") == "repaired"
 LEAN_TARGETS = ["OmplModel.Props.C15", DRIVER]
 EPS = 2.220446049250313e-16
 TOL = 1e-12
@@ -62,6 +66,36 @@ def meas_tol(n, cmin, c):
 
 def focal(x, s, g):
     return dist(s, x) + dist(x, g)
+
+
+def on_focal_segment(x, pairs, tol=1e-9):
+    """is x (within tol, relative to the focal distance) on the straight segment between the foci of some pair?  (the as-coded
+    output of the degenerate branch: conjugate radius 0)"""
+    for s_, g_ in pairs:
+        cm = dist(s_, g_)
+        if cm == 0:
+            if dist(x, s_) <= tol:
+                return True
+            continue
+        if abs(focal(x, s_, g_) - cm) <= tol * max(cm, 1.0):
+            return True
+    return False
+
+
+def full_space_heuristic(P, all_):
+    """InformedSampler::heuristicSolnCost for a path-length objective with GoalStates (threshold 0) on SE2 / SE3, recomputed
+    independently: the space's own distance = |dxyz| + w * rotation distance (SE2: weight 0.5, SO2 arc; SE3: weight 1, SO3
+    arc length acos|<q, q0>| with the 1-1e-9 clamp); starts and goals have yaw 0 / the identity quaternion"""
+    n = P["n"]
+    x = all_[:n]
+    if P["kind"] == "se2":
+        a = abs(all_[2])
+        rot = 0.5 * (a if a <= math.pi else 2 * math.pi - a)
+    else:
+        dq = abs(all_[6])
+        rot = 0.0 if dq > 1.0 - 1e-9 else math.acos(dq)
+    dg = min(dist(x, g) + rot for g in P["goals"])
+    return min(dist(s_, x) + rot + max(dg, 0.0) for s_ in P["starts"])
 
 
 def relclose(a, b, tol=TOL, floor=0.0):
@@ -170,6 +204,7 @@ EXACT2D = [(3, 4, 5), (5, 12, 13), (8, 15, 17), (20, 21, 29)]   # foci (+-a,0), 
 def gen_phs_script(rng, dims, per_dim):
     """returns (pre, ops): pre = header+new+probe lines; ops = [(line, meta)] (rot lines inserted later)."""
     news, ops, metas = [], [], []
+    lastc = {}
     k = 0
     for n in dims:
         for rep in range(per_dim):
@@ -225,7 +260,39 @@ def gen_phs_script(rng, dims, per_dim):
                         ops.append(("pt %d %s" % (k, vb(x)), dict(m, kind="pt", x=x)))
                 ops.append(("meas %d %s" % (k, f2bits(c * rng.uniform(1, 3))), dict(m, kind="meas")))
             ops.append(("meas %d %s" % (k, f2bits(cmin * 0.5)), dict(meta0, kind="meas-throw")))
+            lastc[k] = dict(meta0, c=cs[-1], S=cs[-1] + S0)
             k += 1
+    # circle branch of updateRotation (start == goal, or closer than circleTol = 1e-9): identity rotation
+    for n, sep in ((2, 0.0), (4, 0.0), (3, 5e-10)):
+        f1 = [rng.uniform(-2, 2) for _ in range(n)]
+        f2 = list(f1)
+        if sep:
+            f1[1] = 0.25
+            f2[1] = 0.25 + sep
+        cmin = dist(f1, f2)
+        S0 = max(abs(x) for x in f1 + f2)
+        news.append("new %d %s %s" % (n, vb(f1), vb(f2)))
+        meta0 = {"k": k, "n": n, "f1": f1, "f2": f2, "cmin": cmin, "circle": True}
+        ops.append(("tf %d %s" % (k, vb(rand_unit(rng, n))), dict(meta0, kind="tf-unset")))
+        for c in (1e-3, 0.5, 7.0):
+            m = dict(meta0, c=c, S=c + S0)
+            ops.append(("setc %d %s" % (k, f2bits(c)), dict(m, kind="setc")))
+            for _ in range(3):
+                u = rand_unit(rng, n)
+                ops.append(("tf %d %s" % (k, vb(u)), dict(m, kind="tf-surface", u=u)))
+                uu = [rng.uniform(0, 0.99) * x for x in u]
+                ops.append(("tf %d %s" % (k, vb(uu)), dict(m, kind="tf-interior", u=uu)))
+            x = [p + c * rng.uniform(-0.6, 0.6) for p in f1]
+            ops.append(("pt %d %s" % (k, vb(x)), dict(m, kind="pt", x=x)))
+            ops.append(("meas %d %s" % (k, f2bits(c * 2)), dict(m, kind="meas")))
+        lastc[k] = dict(meta0, c=7.0, S=7.0 + S0)
+        k += 1
+    # RNG::uniformProlateHyperspheroidSurface / uniformProlateHyperspheroid with replayed draws, PHSs visited in DESCENDING
+    # dimension order (process-wide state left by a higher dimension must not leak); lines are completed after `uprobe`
+    for kk in sorted(lastc, key=lambda q: (-lastc[q]["n"], q)):
+        for kind in ("usurf", "uball", "uball"):
+            seed = 1 + rng.below(10 ** 6)
+            ops.append(("%s %d %d" % (kind, kk, seed), dict(lastc[kk], kind=kind, seed=seed)))
     for n in list(range(0, 13)) + [20, 50]:
         ops.append(("ball %d" % n, {"kind": "ball", "n": n}))
         r = rng.choice([0.5, 1.0, 2.0, rng.uniform(0.01, 30.0)])
@@ -288,8 +355,12 @@ def gen_ulp_script(rng, dims, per_dim):
 
 
 def check_rot(n, f1, f2, R):
-    """RtR = I and R e1 = (f2-f1)/cmin at 1e-9 (column-major R)"""
+    """RtR = I, det = +1 and R e1 = (f2-f1)/cmin at 1e-9 (column-major R); foci closer than circleTol = 1e-9: R must be
+    EXACTLY the identity (the circle branch of updateRotation)"""
     cols = [R[j * n:(j + 1) * n] for j in range(n)]
+    if dist(f1, f2) < 1e-9:
+        ident = all(cols[j][i] == (1.0 if i == j else 0.0) for i in range(n) for j in range(n))
+        return (0.0, 0.0) if ident else (1.0, 1.0)
     worst = 0.0
     for i in range(n):
         for j in range(n):
@@ -332,6 +403,18 @@ def phs_oracle(line, meta, out):
     if kind == "ball":
         m = bits2f(d["~m"])
         return None if relclose(m, unit_ball(meta["n"])) else "unitNBallMeasure(%d) = %r, closed form %r" % (meta["n"], m, unit_ball(meta["n"]))
+    if kind in ("usurf", "uball"):
+        if "~pl" not in d:
+            return "%s failed: %s" % (kind, out)
+        pl, c_, S_ = bits2f(d["~pl"]), meta["c"], meta["S"]
+        if d.get("consumed") != "1":
+            return ("uniformProlateHyperspheroid%s did not consume exactly this call's draws (uniformNormalVector of the PHS dimension %d%s)"
+                    % ("Surface" if kind == "usurf" else "", meta["n"], "" if kind == "usurf" else " + one uniformReal"))
+        if kind == "usurf" and abs(pl - c_) > TOL * S_:
+            return "uniformProlateHyperspheroidSurface output has focal sum %r, transverse diameter %r" % (pl, c_)
+        if kind == "uball" and pl > c_ + TOL * S_:
+            return "uniformProlateHyperspheroid output has focal sum %r > transverse diameter %r" % (pl, c_)
+        return None
     if kind == "nball":
         m = bits2f(d["~m"])
         want = unit_ball(meta["n"]) * meta["r"] ** meta["n"]
@@ -406,8 +489,15 @@ def run_phs_scripts(ck, hbin, rng, nscripts, dims, per_dim, cmpst, tag="phs", ge
         r = rng.fork("%s%d" % (tag, si))
         news, ops, npx = (gen or gen_phs_script)(r, dims, per_dim)
         hdr = "phs seed=%d" % (1 + r.below(10 ** 6))
-        pre = [hdr] + news + ["probe %d" % k for k in range(npx)]
+        uops = [(j, m["k"], m["seed"]) for j, (_, m) in enumerate(ops) if m.get("kind") in ("usurf", "uball")]
+        pre = [hdr] + news + ["probe %d" % k for k in range(npx)] + ["uprobe %d %d" % (kk, sd) for _, kk, sd in uops]
         out, rc, err = ck.run_bin(hbin, pre)
+        if out is not None and len(out) == 2 * npx + len(uops):
+            for (j, kk, sd), ln in zip(uops, out[2 * npx:]):
+                _, dd = fields(ln)
+                ln0, m0 = ops[j]
+                ops[j] = (ln0 + " " + dd["dir"].replace(",", " ") + ((" " + dd["u"]) if m0["kind"] == "uball" else ""), m0)
+            out = out[:2 * npx]
         if out is None or rc != 0 or len(out) != 2 * npx:
             ck.report({"engine": "phs", "class": "harness-failure", "what": "probe run failed"}, script=pre, observed=(out or [])[-5:] + [str(rc), (err or "")[-800:]])
             return 1
@@ -441,7 +531,7 @@ def run_phs_scripts(ck, hbin, rng, nscripts, dims, per_dim, cmpst, tag="phs", ge
             o = impl[i]
             ck.count("op:" + ln.split()[0])
             ck.count("case:" + m["kind"])
-            ck.case((ln,), m["kind"] in ("tf-surface", "tf-interior", "tf-axis", "pt", "pt-on", "setc", "meas"))
+            ck.case((ln,), m["kind"] in ("tf-surface", "tf-interior", "tf-axis", "pt", "pt-on", "setc", "meas", "usurf", "uball"))
             f = None
             if m["kind"] == "rot":
                 f = None if o == "rot hyp=1" else "rotation line: " + o
@@ -466,7 +556,7 @@ def run_phs_scripts(ck, hbin, rng, nscripts, dims, per_dim, cmpst, tag="phs", ge
                 # conjugate radius sqrt(c^2-cmin^2)/2: a one-ulp difference in cmin is amplified by the cancellation
                 xa = 16 * EPS * m["c"] / math.sqrt(2 * (m["c"] - m["cmin"]) / m["cmin"])
             d = cmpst.line(o, model[i] if i < len(model) else "<missing>", m.get("S", 1.0), mtol=mt, xabs=xa,
-                           soft_flags=(m["kind"] == "pt" and not m.get("strict") and abs(bits2f(fields(o)[1].get("~pl", "0")) - m["c"]) <= TOL * m["S"]) if m["kind"] == "pt" and "~pl" in fields(o)[1] else False)
+                           soft_flags=True if m["kind"] in ("usurf", "uball") else (m["kind"] == "pt" and not m.get("strict") and abs(bits2f(fields(o)[1].get("~pl", "0")) - m["c"]) <= TOL * m["S"]) if m["kind"] == "pt" and "~pl" in fields(o)[1] else False)
             if d is not None and f is None:
                 ck.disagreements += 1
                 ck.report({"engine": "phs", "class": "correspondence", "what": d},
@@ -584,6 +674,8 @@ def smp_lockstep(ck, hbin, rng, tag, cmpst, nonmonotone=False):
     alive = list(range(len(pairs)))
     for c in costs:
         # python mirror of updatePhsDefinitions on the alive list
+        if REPAIRED:
+            alive = list(range(len(pairs)))
         new_alive = []
         sz = len(alive)
         for idx in alive:
@@ -613,6 +705,14 @@ def smp_lockstep(ck, hbin, rng, tag, cmpst, nonmonotone=False):
             for s_, g_ in pairs:
                 x = [(a + b) / 2 for a, b in zip(s_, g_)]
                 ops.append(("nin %s" % vb(x), dict(m, kind="nin", x=x)))
+    if not nonmonotone:
+        # history: a start state added to the problem AFTER the sampler was built.  As coded the direct sampler keeps the PHSs of its
+        # construction (planners re-allocate the sampler when starts/goals change); its heuristic must not change
+        xs_new = [lo + (hi - lo) * rng.uniform(0.2, 0.8) for _ in range(n)]
+        ops.append(("addstart %s" % vb(xs_new), {"kind": "addstart", "x": xs_new}))
+        for _ in range(3):
+            x = rand_point(rng, P, (xs_new, pairs[0][1], costs[-1]))
+            ops.append(("hc %s" % vb(x), {"kind": "hc", "x": x, "c": costs[-1], "alive": list(alive), "S": S + costs[-1]}))
     script = head + srots + [l for l, _ in ops]
     metas = [{"kind": "setup"}] * (len(head) - 1 + len(srots)) + [m for _, m in ops]
     bad = judge_smp(ck, hbin, script, metas, P, cmpst, tag + ("-nonmono" if nonmonotone else "-direct"), nonmonotone)
@@ -644,6 +744,16 @@ def smp_lockstep(ck, hbin, rng, tag, cmpst, nonmonotone=False):
                  else [lo + (hi - lo) * rng.unit() for _ in range(n)] for _ in range(k2)]
         ops.append(("base %d %s" % (k2, " ".join(vb(x) for x in cands)), {"kind": "base"}))
         ops.append(("iss %s" % cs, {"kind": "iss", "c": c, "sampler": "rej", "iters": iters, "thr": thr, "S": S + diam}))
+    # history: InformedSampler::heuristicSolnCost reads the problem definition live -> the rejection sampler follows an added start
+    xs_new = [lo + (hi - lo) * rng.uniform(0.2, 0.8) for _ in range(n)]
+    ops.append(("addstart %s" % vb(xs_new), {"kind": "addstart", "x": xs_new}))
+    for _ in range(3):
+        x = rand_point(rng, P, (xs_new, pairs[0][1], diam))
+        ops.append(("hc %s" % vb(x), {"kind": "bh", "x": x, "thr": thr, "S": S + diam}))
+    cnew = dist(xs_new, P["goals"][0]) * 1.2
+    cands = [rand_point(rng, P, (xs_new, P["goals"][0], cnew)) for _ in range(iters + 1)]
+    ops.append(("base %d %s" % (len(cands), " ".join(vb(x) for x in cands)), {"kind": "base"}))
+    ops.append(("su %s" % f2bits(cnew), {"kind": "su", "c": cnew, "sampler": "rej", "iters": iters, "thr": thr, "S": S + diam}))
     script = head + [l for l, _ in ops]
     metas = [{"kind": "setup"}] * (len(head) - 1) + [m for _, m in ops]
     return judge_smp(ck, hbin, script, metas, P, cmpst, tag + "-rej", False)
@@ -716,7 +826,7 @@ def judge_smp(ck, hbin, script, metas, P, cmpst, tag, nonmonotone):
             if d.get("has") != "0" or not relclose(bits2f(d["~m"]), tot):
                 f = "rejection sampler: informed measure %s has=%s, expected the space measure %r and has=0" % (d.get("~m"), d.get("has"), tot)
         elif kind == "hc":
-            want = min(focal(m["x"], *pairs[j]) for j in m["alive"])
+            want = min(focal(m["x"], *pairs[j]) for j in (range(len(pairs)) if REPAIRED else m["alive"]))
             if not relclose(bits2f(d["~h"]), want, TOL, m["S"]):
                 f = "heuristicSolnCost %r, best focal sum over the live PHSs %r" % (bits2f(d["~h"]), want)
         elif kind == "bh":
@@ -736,6 +846,11 @@ def judge_smp(ck, hbin, script, metas, P, cmpst, tag, nonmonotone):
                 f = "a state with heuristic cost %r < %r is in no PHS (it can never be sampled)" % (allmin, c)
                 fclass = "erased-phs-not-restored" if nonmonotone else "helpful-state-excluded"
             ck.count("nin:k=%s" % d.get("k"))
+        elif kind == "addstart":
+            if not o.startswith("addstart ok"):
+                f = "addStartState failed: " + o
+            P = dict(P, starts=P["starts"] + [m["x"]])     # base_heur (rejection sampler) sees it; `pairs` (direct sampler) do not
+            ck.count("history:start-added-after-construction")
         elif kind == "base":
             toks = ln.split()
             cnt = int(toks[1])
@@ -797,11 +912,18 @@ def judge_smp(ck, hbin, script, metas, P, cmpst, tag, nonmonotone):
         if f is not None:
             pre = [script[0]] + [l for l, mm in zip(script[1:], metas) if mm["kind"] in ("setup",)]
             keep = [l for l, mm in list(zip(script[1:], metas))[:i + 1] if mm["kind"] in ("upd", "base") or l == ln]
-            if ck.report({"engine": "phs", "class": fclass, "what": f}, script=pre + keep, observed=[o], expected=[f]):
+            rec = {"engine": "phs", "class": fclass, "what": f}
+            if fclass == "erased-phs-not-restored":
+                # reached only after the as-coded checks of this very line passed (PHS list / inclusion count / measure equal the
+                # mirror of updatePhsDefinitions' erasure): any OTHER wrong value has another class and is a VIOLATION
+                rec["as_coded"] = "value equals the mirror of the coded erasure"
+            if ck.report(rec, script=pre + keep, observed=[o], expected=[f]):
                 ck.log("sampler oracle failure (%s): %s" % (fclass, f))
                 bad += 1
                 if bad >= 3:
                     return bad
+        if REPAIRED and kind in ("upd", "hc", "im", "im2", "nin"):
+            continue
         mt = max([meas_tol(n, cmins[j], m["c"]) for j in m["alive"]] + [TOL]) if kind in ("upd", "im") and not m.get("strict") else TOL
         if kind == "im2":
             mt = 1e-6
@@ -877,6 +999,20 @@ def bulk_configs(rng, tier):
             add(P, "rej", (lambda cm, fac=fac: max(cm) * fac), minfac=(lambda cm: min(cm) * 1.02) if i % 2 else None, n=N // 4, name="sweep-rej-%s" % kind)
         if i % 6 == 2 and fac >= 1.5:
             add(P, "ord-direct", (lambda cm, fac=fac: max(cm) * fac), n=N // 8, name="sweep-ord-%s" % kind)
+    # bounds AT or BELOW every focal distance (the optimal straight-line solution has been found): nothing can improve; rejection and
+    # ordered samplers report failure; the direct sampler's degenerate branch is finding F130 (fixed library seed: deterministic)
+    Pd1 = {"kind": "rv", "n": 2, "lo": -10.0, "hi": 10.0, "starts": [[0.3, 0.1]], "goals": [[1.7, 0.9]]}
+    Pd3 = {"kind": "rv", "n": 2, "lo": -10.0, "hi": 10.0, "starts": [[0.3, 0.1]], "goals": [[1.7, 0.9], [2.0, 2.0], [-3.0, 1.0]]}
+    add(Pd1, "direct", lambda cm: cm[0], n=3000, name="bound-at-focal-distance")
+    add(Pd1, "direct", lambda cm: cm[0] * 0.5, n=3000, name="bound-below-focal-distance")
+    add(Pd3, "direct", lambda cm: min(cm), n=1000, name="bound-below-focal-distance-3-pairs")
+    add(Pd1, "rej", lambda cm: cm[0], n=300, name="bound-at-focal-distance-rej")
+    add(Pd3, "ord-direct", lambda cm: min(cm) * 0.5, n=300, name="bound-below-focal-distance-ord")
+    add(Pd3, "ord-rej", lambda cm: min(cm), n=300, name="bound-at-focal-distance-ord-rej")
+    # start == goal (circle branch of updateRotation): the informed set is the ball of radius c/2
+    Pc0 = {"kind": "rv", "n": 3, "lo": -5.0, "hi": 5.0, "starts": [[0.5, -0.25, 1.0]], "goals": [[0.5, -0.25, 1.0]]}
+    add(Pc0, "direct", 2.0, n=N // 8, name="start-equals-goal")
+    add(Pc0, "rej", 3.0, n=N // 16, name="start-equals-goal-rej")
     # infinite cost: falls back to the base sampler
     add(P1, "direct", math.inf, n=N // 10, name="infinite-cost")
     # tiny focal separations at large coordinates (rounding stress; regression for F34, fixed by 74ee9605c)
@@ -936,6 +1072,11 @@ def bulk_judge(cfg, out, rc, err):
         if d["inb"] != "1" or not state_ok(P, all_):
             what = "successful sample is outside the space bounds (satisfiesBounds=%s): %r" % (d["inb"], all_[:n])
             cls = "ordered-ignores-wrapped-failure" if cfg["sampler"] == "ord-direct" else "out-of-bounds"
+        elif c < math.inf and not hc < c and direct and not c > min(dist(s, g) for s, g in pairs) and cfg["sampler"] == "direct" \
+                and on_focal_segment(all_[:n], pairs):
+            what = ("sampleUniform returned true for a bound %r that is not above any focal distance: the state lies on a focal segment and has heuristic cost %r >= maxCost"
+                    % (c, hc))
+            cls = "degenerate-bound-success"
         elif c < math.inf and not hc < c:
             what = "successful sample has heuristic cost %r >= maxCost %r" % (hc, c)
             # coordinate rounding of a point of a very thin PHS: excess far below one ulp of the coordinates
@@ -946,6 +1087,9 @@ def bulk_judge(cfg, out, rc, err):
         elif cfg["sampler"] == "direct" and not relclose(hc, fm, TOL, S):
             what = "heuristicSolnCost %r is not the best focal sum %r" % (hc, fm)
             cls = "heuristic-mismatch"
+        elif cfg["sampler"] != "direct" and P["kind"] in ("se2", "se3") and not relclose(hc, full_space_heuristic(P, all_), 1e-9, S):
+            what = "InformedSampler::heuristicSolnCost %r is not the space-distance heuristic %r (position + weighted rotation)" % (hc, full_space_heuristic(P, all_))
+            cls = "heuristic-mismatch"
         elif cfg["sampler"] != "direct" and fm > hc + TOL * S:
             what = "position-only focal sum %r exceeds the full-space heuristic %r" % (fm, hc)
             cls = "heuristic-mismatch"
@@ -953,11 +1097,14 @@ def bulk_judge(cfg, out, rc, err):
             what = "harness focal sum differs from the check's recomputation"
             cls = "heuristic-mismatch"
         if what:
-            if cls in ("direct-rounding-thin-phs", "ordered-ignores-wrapped-failure"):
+            if cls in ("direct-rounding-thin-phs", "ordered-ignores-wrapped-failure", "degenerate-bound-success"):
                 # the defects F34 / F35 (fixed in /repo): kept as separate classes so that a regression is named
                 res["known"].setdefault(cls, (what, idx))
             elif res["fail"] is None:
                 res["fail"] = (cls, what, idx)
+        if what is None and cfg["sampler"] != "direct" and c < math.inf and not c > min(dist(s, g) for s, g in pairs) and res["fail"] is None \
+                and P["kind"] == "rv":
+            res["fail"] = ("success-without-informed-set", "success for a bound %r that is not above any focal distance (cost %r)" % (c, hc), idx)
         if cfg["tests"]:
             res["pts"].append(all_)
     for ln in out:
@@ -1071,7 +1218,7 @@ def run_bulk(ck, hbin, rng):
     seeds = [1 + rng.fork("bulkseed%d" % i).below(10 ** 6) for i in range(len(cfgs))]
     # the directed reproductions of known findings use fixed library seeds (deterministic)
     for i, cfg in enumerate(cfgs):
-        if cfg["name"] in ("tiny-separation", "ordered-wrapped-failure"):
+        if cfg["name"] in ("tiny-separation", "ordered-wrapped-failure") or cfg["name"].startswith("bound-"):
             seeds[i] = 11
 
     def one(i):
@@ -1295,7 +1442,10 @@ def run_seq(ck, hbin, cmpst, rng):
 
 
 # ---------------------------------------------------------------------------------- PHS branch, replayed private draws
-SUP_DIM_ORDERS = [[6, 2, 3, 2, 5, 2], [4, 3, 2, 6, 2, 3], [5, 4, 3, 2, 2, 3], [2, 6, 2, 4, 3, 2]]
+SUP_DIM_ORDERS = [[("rv", 6), ("se2", 2), ("rv", 3), ("rv", 2), ("se3", 3), ("rv", 2)],
+                  [("rv", 4), ("se3", 3), ("rv", 2), ("rv", 6), ("se2", 2), ("rv", 3)],
+                  [("rv", 5), ("rv", 4), ("se3", 3), ("se2", 2), ("rv", 2), ("rv", 3)],
+                  [("se2", 2), ("rv", 6), ("rv", 2), ("rv", 4), ("se3", 3), ("se2", 2)]]
 
 
 def run_sup(ck, hbin, cmpst, rng):
@@ -1309,12 +1459,13 @@ def run_sup(ck, hbin, cmpst, rng):
     nscripts = 3 if ck.tier == "quick" else 16
     for si in range(nscripts):
         rs = rng.fork("supscript%d" % si)
-        dims = SUP_DIM_ORDERS[si % len(SUP_DIM_ORDERS)] if si < 4 else [rs.choice([2, 2, 3, 4, 5, 6]) for _ in range(6)]
+        dims = SUP_DIM_ORDERS[si % len(SUP_DIM_ORDERS)] if si < 4 else \
+            [rs.choice([("rv", 2), ("rv", 3), ("rv", 4), ("rv", 5), ("rv", 6), ("se2", 2), ("se3", 3)]) for _ in range(6)]
         hdr = "phs seed=%d" % (1 + rs.below(10 ** 6))
         segs = []
-        for pi, n in enumerate(dims):
+        for pi, (kind_, n) in enumerate(dims):
             r = rs.fork("sup%d" % pi)
-            P = gen_problem(r, "rv", n)
+            P = gen_problem(r, kind_, n)
             if pi % 3 == 1:       # overlapping PHSs partly outside small bounds
                 P["lo"], P["hi"] = 0.0, 1.0
                 P["starts"] = [[r.uniform(0.05, 0.95) for _ in range(n)] for _ in P["starts"]]
@@ -1326,6 +1477,10 @@ def run_sup(ck, hbin, cmpst, rng):
             for j in range(4):
                 c = max(cmins) * r.choice([1.02, 1.1, 1.3, 1.7])
                 calls.append((1 + r.below(10 ** 6), c, (min(cmins) * r.uniform(1.0, 1.3)) if j % 2 else None))
+            # a bound AT or BELOW every focal distance: the call must report failure after numIters iterations (these come last:
+            # they erase PHSs for good, F36)
+            calls.append((1 + r.below(10 ** 6), min(cmins) if len(pairs) == 1 else min(cmins) * r.choice([1.0, 0.9]), None))
+            calls.append((1 + r.below(10 ** 6), min(cmins) * 0.5, min(cmins) * 0.25))
             segs.append({"P": P, "pairs": pairs, "cmins": cmins, "iters": iters, "calls": calls,
                          "head": prob_lines(P) + ["mk direct %d %s" % (iters, f2bits(0.0))]})
         probe = [hdr]
@@ -1360,7 +1515,8 @@ def run_sup(ck, hbin, cmpst, rng):
                 if ln.endswith("bounds-branch"):
                     ck.count("sup:bounds-branch(skipped)")
                     continue
-                draws = ln.split("draws=", 1)[1].replace(",", " ")
+                _, dsup = fields(ln)
+                draws = dsup["draws"].replace(",", " ") + ("" if dsup["rots"] == "-" else " " + dsup["rots"].replace(",", " "))
                 script.append(("sup %d %s %s" % (sd, f2bits(c), draws)) if minc is None else
                               ("sup3 %d %s %s %s" % (sd, f2bits(minc), f2bits(c), draws)))
                 metas.append({"c": c, "minc": minc, "iters": sg["iters"], "sg": sg})
@@ -1373,7 +1529,7 @@ def run_sup(ck, hbin, cmpst, rng):
         impl = impl or []
         ck.traces_validated += 1
         ck.count("scripts:sup")
-        ck.count("sup:dimension-order=%s" % ",".join(map(str, dims)))
+        ck.count("sup:order=%s" % ",".join("%s%d" % kn for kn in dims))
         if rc != 0 or len(impl) != len(script) - 1:
             ck.report({"engine": "phs", "class": "harness-failure", "what": "sup run stopped early"}, script=[l[:400] for l in script],
                       observed=impl[-2:] + [str(rc), (err or "")[-800:]])
@@ -1392,22 +1548,39 @@ def run_sup(ck, hbin, cmpst, rng):
             ck.count("op:" + ln.split()[0])
             ck.case(("sup", si, i), True)
             f = None
+            fcls = "phs-branch-replayed"
             if "found" not in d:
                 f = "unexpected %r" % o
             else:
                 used = int(d["used"])
                 ck.count("sup:found=%s" % d["found"])
-                ck.count("sup:dim=%d,pairs=%d" % (P["n"], len(pairs)))
+                ck.count("sup:%s%d,pairs=%d" % (P["kind"], P["n"], len(pairs)))
+                if not m["c"] > min(sg["cmins"]):
+                    ck.count("sup:bound-at-or-below-focal-distance")
                 if used < 0 or used > m["iters"]:
                     f = ("the call did not consume the draws of k <= numIters=%d iterations of samplePhsRejectBounds (uniform01, "
                          "uniformNormalVector of the PHS dimension %d, uniformReal, uniform01): its generator state matches no iteration count"
                          % (m["iters"], P["n"])) if used < 0 else "the call made %d iterations with numIters=%d" % (used, m["iters"])
-                elif d["found"] == "0" and used != m["iters"] and m["minc"] is None:
+                elif d["found"] == "0" and used != m["iters"] and m["minc"] is None and not (REPAIRED and not m["c"] > min(sg["cmins"])):
                     f = "failure reported after %d of %d iterations" % (used, m["iters"])
+                elif int(d["kept"]) < 0 or int(d["kept"]) > used:
+                    f = "the rotation sub-sampler made a number of draws that matches no count of kept iterations (kept=%s, iterations=%d)" % (d["kept"], used)
+                elif REPAIRED and m["c"] < min(sg["cmins"]) * (1 - 1e-12) and (d["found"] != "0" or (used != 0 and m["minc"] is None)):
+                    f = "repaired tree: a bound no PHS can improve on must be answered false without sampling (got %s)" % o
+                elif d["found"] == "1" and not m["c"] > min(sg["cmins"]):
+                    xall = fvec(d["~x"])
+                    h = min(focal(xall[:P["n"]], *p_) for p_ in pairs)
+                    if not h < m["c"]:
+                        f = ("sampleUniform returned true for a bound %r that is not above any focal distance (smallest %r): the state has heuristic cost %r >= maxCost"
+                             % (m["c"], min(sg["cmins"]), h))
+                        # F130 as coded: the degenerate PHS (diameter := focal distance) is sampled on its focal segment and the isInPhs
+                        # re-test `pathLength < cmin` passes by rounding
+                        fcls = "degenerate-bound-success" if on_focal_segment(xall[:P["n"]], pairs) else "phs-branch-replayed"
                 elif d["found"] == "1":
-                    x = fvec(d["~x"])
+                    xall = fvec(d["~x"])
+                    x = xall[:P["n"]]
                     h = min(focal(x, *p_) for p_ in pairs)
-                    if d["inb"] != "1" or not all(lo - EPS <= v <= hi + EPS for v in x):
+                    if d["inb"] != "1" or not state_ok(P, xall):
                         f = "successful sample outside the bounds: %r" % (x,)
                     elif not h < m["c"]:
                         f = "successful sample has heuristic cost %r >= maxCost %r" % (h, m["c"])
@@ -1415,9 +1588,13 @@ def run_sup(ck, hbin, cmpst, rng):
                         f = "successful sample has heuristic cost %r < minCost %r" % (h, m["minc"])
             keep = script[:i + 2]   # the whole op history of the process matters (earlier problems' sampling calls included)
             if f is not None:
-                if ck.report({"engine": "phs", "class": "phs-branch-replayed", "what": f}, script=keep, observed=[o], expected=[f]):
+                if ck.report({"engine": "phs", "class": fcls, "sampler": "direct", "what": f}, script=keep, observed=[o], expected=[f]):
                     ck.log("PHS-branch oracle failure (dimension order %s): %s" % (dims, f[:160]))
                     bad += 1
+            if not m["c"] > min(sg["cmins"]):
+                # whether a point of the focal segment passes `pathLength < cmin` is decided by the last ulp of Eigen's reduction: not lock-stepped
+                ck.count("sup:degenerate-not-lock-stepped")
+                continue
             dd = cmpst.line(o, model[i] if i < len(model) else "<missing>", S)
             if dd is not None and f is None:
                 # the model consumed exactly this call's draws with dimension = PHS dimension: the real call produced another sample
